@@ -49,10 +49,16 @@ def farApart (x y : Rl) (k : Int) : Bool :=
   let diff := (x.scaled s - y.scaled s).natAbs
   decide (diff > 10 ^ (k - s).toNat)
 
+/-- a DICT entry that is present only under a condition -/
+def optEntry (c : Bool) (op : Nat) (args : List Operand) : List (Nat × List Operand) :=
+  if c then [(op, args)] else []
+
 /-- `setFontMatrix`: the six reals, if some entry differs from the default by more than 1e-5 -/
+def fontMatrixNeeded (fm : List Rl) (isCID : Bool) : Bool :=
+  (fm.zip (if isCID then identityFM else defaultFM)).any (fun p => farApart p.1 p.2 (-5))
+
 def fontMatrixEntry (fm : List Rl) (isCID : Bool) : List (Nat × List Operand) :=
-  let dflt := if isCID then identityFM else defaultFM
-  if (fm.zip dflt).any (fun p => farApart p.1 p.2 (-5)) then [(3079, fm.map realOperand)] else []
+  optEntry (fontMatrixNeeded fm isCID) 3079 (fm.map realOperand)
 
 structure FontIn where
   fontName : Bytes
@@ -80,10 +86,6 @@ deriving Repr
 def deltas : Int → List Int → List Operand
   | _, [] => []
   | prev, x :: xs => .int (toI16 ((x - prev) % 65536).toNat) :: deltas x xs
-
-/-- a DICT entry that is present only under a condition -/
-def optEntry (c : Bool) (op : Nat) (args : List Operand) : List (Nat × List Operand) :=
-  if c then [(op, args)] else []
 
 /-- `makePrivateDict` without opSubrs -/
 def makePrivateDict (p : PrivIn) (dw nw : Int) : List (Nat × List Operand) :=
